@@ -13,6 +13,9 @@ use serde_json::json;
 use std::panic::AssertUnwindSafe;
 use uplc::ast::{Name, Program};
 
+/// key of the known finding `split_body_lambda` (see known_findings.jsonl)
+pub const AFTERWARDS_KEY: &str = "c02:afterwards-moves-failing-argument-under-lambda";
+
 pub const PHASES: [&str; 7] =
     ["run_once_pass", "multi_pass*", "builtin_curry_reducer", "multi_pass", "builtin_curry_reducer#2", "multi_pass*#2", "clean_up_no_inlines+afterwards"];
 
@@ -120,6 +123,20 @@ pub fn compare_pair(
     } else if ca != cb {
         let why = attribute(raw_pre, args, &ca);
         let repaired = matches!(&a, Out::Fail(v, t) if v == "TypeMismatch" && t.contains("Data)")) && why.starts_with("clean_up_no_inlines+afterwards");
+        if why.starts_with("clean_up_no_inlines+afterwards") && ca == "abort" && !repaired {
+            // `split_body_lambda` (phase `afterwards`) turns `[(lam a (lam b body)) ARG]` into
+            // `(lam b [(lam a body) ARG])`: ARG is no longer evaluated when the function is built, only
+            // when (and every time) it is called.  No small safe patch: known finding, one key.
+            rep.count("known:afterwards-moves-argument-under-lambda");
+            comp::fail_shared(
+                rep,
+                AFTERWARDS_KEY,
+                "the optimiser's last phase moves the evaluation of a failing argument under a lambda: the unoptimised program aborts, the optimised one returns",
+                replay.clone(),
+                json!({"pre": short(&ca), "post": short(&cb), "attribution": why, "case": key}),
+            );
+            return (a, b);
+        }
         if repaired {
             // the generator hands `list data` to a builtin that takes a typed list (writeBits, multiScalarMul);
             // only the optimiser's `afterwards` phase makes the program well-typed
@@ -370,7 +387,7 @@ pub fn run(ctx: &Ctx) -> Report {
     // 3. generated MiniAiken modules
     let seed = ctx.seed;
     let spec_quota = if ctx.thorough { 3 } else { 2 };
-    let results = comp::par_map(n_modules, 14, |i| one_generated(seed, i, n_args, spec_quota));
+    let results = comp::par_map(n_modules, 14, |i| one_generated(seed, i, n_args, if i < 3000 { spec_quota } else { 0 }));
     for (r, s) in results {
         comp::merge(&mut rep, r);
         specs.extend(s);
@@ -435,6 +452,19 @@ pub fn one(_ctx: &Ctx) -> Report {
             cur = cur.multi_pass().0;
             println!("after multi_pass #{} -> {}:\n{}\n", i + 1, comp::eval(&comp::evaluable_pre(&cur), &[]).canonical(), cur.to_pretty());
         }
+    }
+    if std::env::var("VERIF_TRACE_LAST").is_ok() {
+        let mut cur = raw.clone();
+        for r in phases(&raw).into_iter().take(6) {
+            if let Ok(p) = r {
+                cur = p;
+            }
+        }
+        println!("before clean_up:\n{}\n", cur.to_pretty());
+        let c = cur.clean_up_no_inlines();
+        println!("after clean_up_no_inlines -> {}:\n{}\n", comp::eval(&comp::evaluable_pre(&c), &[]).canonical(), c.to_pretty());
+        let a = c.afterwards();
+        println!("after afterwards -> {}:\n{}\n", comp::eval(&comp::evaluable_pre(&a), &[]).canonical(), a.to_pretty());
     }
     Report::new("c02-one", "")
 }
